@@ -227,7 +227,6 @@ func checkC11(c *Ctx) {
 	flowC11(c)
 }
 
-
 func tryCall(in *absint.Interp, cell *absint.Cell, T interface{ String() string }, name string, args ...absint.Value) (res []absint.Value, err error) {
 	err = in.Try(func() {
 		res = in.CallMethod(cell, in.NamedType("", T.String()[len("github.com/brocaar/lorawan."):]), name, args...)
